@@ -11,7 +11,7 @@ open C00mc
 
 let sort_cmds (l : cmd list) = List.sort compare l
 
-let handle_variant ?(second_repair = false) (v : variant) (x : Sexp.t) : string =
+let handle_variant ?(second_repair = false) ?(third_repair = false) (v : variant) (x : Sexp.t) : string =
   let id, fs = case_fields x in
   let sy = sys_of_case fs in
   let nm = names_of_case fs in
@@ -31,6 +31,8 @@ let handle_variant ?(second_repair = false) (v : variant) (x : Sexp.t) : string 
         | Sexp.List [Sexp.Atom "sig"; e; k; Sexp.List [Sexp.Atom "panic"]] -> (expr_of_sexp e, int_of_string (Sexp.atom k), None)
         | Sexp.List [Sexp.Atom "sig"; e; k; s] -> (expr_of_sexp e, int_of_string (Sexp.atom k), Some (expr_of_sexp s))
         | s -> raise (Sexp.Parse_error ("bad sig " ^ Sexp.to_string s))) (Sexp.field "signals" fs) in
+    (* the hypothesis on the init expressions of the theorem that applies (C04_script_wf_fixed / C04_script3_wf_b) *)
+    let init_domain_b en = if third_repair then init_order_complete_b en else init_reads_ok_b en in
     (* ---------------- correspondence *)
     let diffs = ref [] in
     let impl_order = List.map (function
@@ -41,13 +43,14 @@ let handle_variant ?(second_repair = false) (v : variant) (x : Sexp.t) : string 
     if impl_order <> model_order then
       diffs := Printf.sprintf "signal-order: impl %d entries, model %d entries" (List.length impl_order) (List.length model_order) :: !diffs;
     let model_blocks = script_blocks v en (n_of_int entry) (N.to_nat (n_of_int unrolls)) in
-    (* patches/0002: the init block of entry 0 in the order of Encoding.init_at2, compared as a LIST *)
+    (* patches/0002, 0003: the init block of entry 0 in the order of Encoding.init_at2 / init_at3, compared as a LIST *)
+    let second_repair = second_repair || third_repair in
     let model_blocks = match model_blocks with
-      | _ :: rest when second_repair && entry = 0 -> init_at2 en :: rest
+      | _ :: rest when second_repair && entry = 0 -> repaired_init_block ~third:third_repair en :: rest
       | l -> l in
     (match model_blocks, impl_blocks with
      | mb :: _, ib :: _ when second_repair && entry = 0 && mb <> ib && sort_cmds mb = sort_cmds ib ->
-         diffs := "block 0: same commands as init_at2, another order" :: !diffs
+         diffs := (if third_repair then "block 0: same commands as init_at3, another order" else "block 0: same commands as init_at2, another order") :: !diffs
      | _ -> ());
     if List.length model_blocks <> List.length impl_blocks then diffs := "number of blocks" :: !diffs
     else List.iteri (fun i (mb, ib) ->
@@ -65,7 +68,7 @@ let handle_variant ?(second_repair = false) (v : variant) (x : Sexp.t) : string 
     let fail = ref None in
     let set_fail k d = if !fail = None then fail := Some (k, d) in
     (match first_bad [] impl_script with
-     | Some (d, c) -> set_fail (classify sy en entry impl_script d c) ("strict check rejects " ^ show_cmd c)
+     | Some (d, c) -> set_fail (classify ~third:third_repair sy en entry impl_script d c) ("strict check rejects " ^ show_cmd c)
      | None -> ());
     List.iter (fun (e, k, s) ->
         if s = None then set_fail "get-signal-at-panics" (Printf.sprintf "%s at step %d" (Sexp.to_string (sexp_of_expr e)) k)) signals;
@@ -141,7 +144,7 @@ let handle_variant ?(second_repair = false) (v : variant) (x : Sexp.t) : string 
       Printf.sprintf "z3=%s cvc5=%s" (if z3 = "ok" then "ok" else "REJECT") (if cvc5 = "ok" then "ok" else if as_const_limit cvc5 then "as-const-limit" else "REJECT") in
     (* the theorems predict acceptance inside their domain: a failure there contradicts the model/proofs *)
     (match !fail with
-     | Some (k, d) when sys_wf sy && names_ok en && (entry <> 0 || init_reads_ok_b en) && not (known_class_b en (n_of_int entry))
+     | Some (k, d) when sys_wf sy && names_ok en && (entry <> 0 || init_domain_b en) && not (known_class_b en (n_of_int entry))
                         && (String.length k >= 3 && (String.sub k 0 3 = "dup" || String.sub k 0 3 = "use")) ->
          fail := Some ("theorem-domain-but-" ^ k, d)
      | _ -> ());
@@ -154,7 +157,8 @@ let handle_variant ?(second_repair = false) (v : variant) (x : Sexp.t) : string 
           let domain =
             if not (sys_wf sy) then "outside:sys_wf"
             else if not (names_ok en) then "outside:names_ok"
-            else if entry = 0 && not (init_reads_ok_b en) then "outside:init_reads_ok(but-accepted)"
+            else if entry = 0 && not (init_domain_b en) then
+              (if third_repair then "outside:init_order_complete(but-accepted)" else "outside:init_reads_ok(but-accepted)")
             else if known_class_b en (n_of_int entry) then "known-class(but-accepted)"
             else "in-theorem-domain" in
           Registry.result ~id ~status:"ok" ~key:(Printf.sprintf "entry%s:%s" (if entry = 0 then "0" else ">0") domain)
@@ -162,5 +166,6 @@ let handle_variant ?(second_repair = false) (v : variant) (x : Sexp.t) : string 
   end
 
 let () = Registry.register "C04" (handle_variant Current)
-let () = Registry.register "C04F" (handle_variant ~second_repair:C00mc.second_repair Fixed)
+let () = Registry.register "C04F" (handle_variant ~second_repair:C00mc.second_repair ~third_repair:C00mc.third_repair Fixed)
 let () = Registry.register "C04G" (handle_variant ~second_repair:true Fixed)
+let () = Registry.register "C04H" (handle_variant ~third_repair:true Fixed)
